@@ -4,7 +4,9 @@
    * scalar names are interned by the harness in a FIXED order (see [harness/src/bin/c01.rs: seed_names]):
        0..15  rax rcx rdx rbx rsp rbp rsi rdi r8..r15     16..31 xmm0..xmm15
        32..37 CF PF ZF SF OF DF                           38..45 eax ecx edx ebx esp ebp esi edi
-     everything else (temporaries, IF, segment bases) gets later numbers and is ignored by the embedding.
+       46..51 es_base cs_base ss_base ds_base fs_base gs_base  (flat memory model: es/cs/ss/ds bases are 0 in the
+              corresponding IL state; fs/gs are not given a value and forms using them are not generated)
+     everything else (temporaries, IF) gets later numbers and is ignored by the embedding.
    * [observation]: what property C01 compares: GPRs, XMM, CF/ZF/SF/OF/DF, memory, next instruction address. *)
 From Coq Require Import ZArith List Bool NArith.
 From Falcon Require Import Base.Res IL.Const IL.ConstSpec IL.Expr IL.ExprSpec IL.Func IL.Loc Exec.Sem Isa.X86.
@@ -90,7 +92,8 @@ Definition il_init (m : mode) (gpr xmm : list Z) (rfl : Z) (mem : list (Z * Z)) 
   let fl n bit := ((n, None), mkc 1 (rfl_bit rfl bit)) in
   mkst (env_of_list (gpr_name m) (wordsz m) 0 gpr
         ++ env_of_list n_xmm 128 0 xmm
-        ++ [fl n_CF 0; fl n_PF 2; fl n_ZF 6; fl n_SF 7; fl n_OF 11; fl n_DF 10])
+        ++ [fl n_CF 0; fl n_PF 2; fl n_ZF 6; fl n_SF 7; fl n_OF 11; fl n_DF 10]
+        ++ map (fun n => ((n, None), mkc (wordsz m) 0)) [46%N; 47%N; 48%N; 49%N])
        (mkbmem false mem).
 
 (* reading the embedding back; None = a register/flag is missing or has the wrong width *)
